@@ -391,7 +391,9 @@ func (ss *sess) move(c *cfg, id string, p pos, class string) bool {
 	}
 	got := map[*fence][]notif.Msg{}
 	if len(chans) > 0 {
-		res, v, why := ss.sub.Collect(markN, chans, opts)
+		copts := opts
+		copts.Watchdog = 2 * notif.DefaultWatchdog
+		res, v, why := ss.sub.Collect(markN, chans, copts)
 		if v != notif.Arrived {
 			ss.markerTrouble("chan", v, why)
 			return false
@@ -406,15 +408,8 @@ func (ss *sess) move(c *cfg, id string, p pos, class string) bool {
 		if f.kind == kChan {
 			continue
 		}
-		l, v, why := f.stream.Await(func(m notif.Msg) bool { return m.ID() == mid }, opts)
-		if v == notif.Lost {
-			// no time bound in the statement: wait one more watchdog period before concluding
-			more, v2, why2 := f.stream.Await(func(m notif.Msg) bool { return m.ID() == mid }, opts)
-			l, v, why = append(l, more...), v2, why2
-			ss.ctx.Count("marker_second_wait", 1)
-		}
-		if v != notif.Arrived {
-			ss.markerTrouble(kindName[f.kind], v, why)
+		l, ok := ss.awaitObjMarker(c, f, mid, opts)
+		if !ok {
 			return false
 		}
 		ss.ctx.Count("markers_"+kindName[f.kind], 1)
@@ -425,6 +420,48 @@ func (ss *sess) move(c *cfg, id string, p pos, class string) bool {
 	}
 	ss.judge(c, id, old, hadOld, p, class, cmd, got)
 	return !ss.dead
+}
+
+// awaitObjMarker: see the same function in checks/c05: two watchdog periods,
+// then the marker move is issued once more; a re-issued marker that arrives
+// makes the run inconclusive (one-off delivery loss), one that does not arrive
+// either is a violation.
+func (ss *sess) awaitObjMarker(c *cfg, f *fence, mid string, opts notif.WaitOpts) ([]notif.Msg, bool) {
+	var got []notif.Msg
+	var v notif.Verdict
+	var why string
+	for attempt := 0; attempt < 2; attempt++ {
+		id := mid
+		pred := func(m notif.Msg) bool { return m.ID() == id }
+		var part []notif.Msg
+		part, v, why = f.stream.Await(pred, opts)
+		got = append(got, part...)
+		if v == notif.Lost {
+			part, v, why = f.stream.Await(pred, opts)
+			got = append(got, part...)
+			ss.ctx.Count("marker_second_wait", 1)
+		}
+		if v == notif.Arrived {
+			if attempt == 1 {
+				ss.infra("marker of a %s fence was lost once; the re-issued marker arrived (delivery hiccup, not judged here)", kindName[f.kind])
+				return nil, false
+			}
+			return got, true
+		}
+		if v != notif.Lost || attempt == 1 {
+			break
+		}
+		ss.mkN++
+		mid = fmt.Sprintf("%s%d", c.anchorID, ss.mkN)
+		ss.ctx.Count("marker_reissued", 1)
+		lat, lon := notif.Destination(c.anchor.lat, c.anchor.lon, 0.2*c.r, 0)
+		if _, ok := ss.do("SET", ss.key, mid, "POINT", f7(r7(lat)), f7(r7(lon))); !ok {
+			return nil, false
+		}
+		ss.do("DEL", ss.key, mid)
+	}
+	ss.markerTrouble(kindName[f.kind], v, why)
+	return nil, false
 }
 
 func (ss *sess) markerTrouble(what string, v notif.Verdict, why string) {
